@@ -8,7 +8,7 @@ import (
 	"strings"
 
 	"github.com/taskctl/taskctl/internal/vh/common"
-	"github.com/taskctl/taskctl/internal/vrt"
+	"github.com/taskctl/taskctl/vrt"
 )
 
 // ---- C11 (schedule part): a dependent stage sees exactly its producer's output ----
